@@ -146,11 +146,14 @@ static int indexed_table_ref_iter_next(void *p, struct reftable_record *rec)
 			}
 			continue;
 		}
-		/* BUG */
-		if (!memcmp(it->oid.buf, ref->value.val2.target_value,
-			    it->oid.len) ||
-		    !memcmp(it->oid.buf, ref->value.val2.value, it->oid.len)) {
-			return 0;
+		{
+			uint8_t *v1 = reftable_ref_record_val1(ref);
+			uint8_t *v2 = reftable_ref_record_val2(ref);
+			if ((v2 && !memcmp(it->oid.buf, v2, it->oid.len)) ||
+			    (v1 && !memcmp(it->oid.buf, v1, it->oid.len))) {
+				ref->update_index += it->r->min_update_index;
+				return 0;
+			}
 		}
 	}
 }
